@@ -216,3 +216,54 @@ package rhp
 //@   requires s != nil && s.contractor != nil && s.sectors != nil && stream != nil
 //@ func (*Server).handleRPCWriteSector props C15
 //@   requires s != nil && s.contractor != nil && s.sectors != nil && s.chain != nil && stream != nil
+//
+// ---------------------------------------------------------------------------
+// C16 (host): formation leaves a confirmable contract or no trace
+//
+// Typestate of the host wallet reservation: once FundV2Transaction succeeded, every exit either
+// broadcast the set or releases a transaction that still carries all the inputs the wallet
+// added; the contract is recorded only after the pool accepted the full set, and the set is
+// broadcast only after the contractor recorded the contract.
+//@ iface Wallet.FundV2Transaction
+//@   assigns pointee:txn
+//@   ensures len(txn.SiacoinInputs) >= old(len(txn.SiacoinInputs)) && txn.FileContracts == old(txn.FileContracts) && txn.FileContractResolutions == old(txn.FileContractResolutions)
+//@ iface Wallet.SignV2Inputs
+//@   assigns pointee:txn
+//@   ensures len(txn.SiacoinInputs) == old(len(txn.SiacoinInputs)) && txn.FileContracts == old(txn.FileContracts) && txn.FileContractResolutions == old(txn.FileContractResolutions)
+//@ iface Wallet.ReleaseInputs
+//@   params txns, v2txns
+//@   assigns nothing
+//@   requires [all-reserved-inputs] len(v2txns) == 1 && len(v2txns[0].SiacoinInputs) >= fundedInputs
+//@ iface Wallet.BroadcastV2TransactionSet
+//@   assigns nothing
+//@   precall [recorded-first] (called("AddV2Contract") && callres("AddV2Contract") == nil) || (called("RenewV2Contract") && callres("RenewV2Contract") == nil)
+//@ iface Contractor.AddV2Contract
+//@   assigns nothing
+//@   precall [pool-accepted] called("AddV2PoolTransactions") && callres("AddV2PoolTransactions", 1) == nil && callres("V2TransactionSet", 2) == nil
+//@ iface ChainManager.UpdateV2TransactionSet
+//@   assigns nothing
+//@   ensures result1 == nil && len(result0) > 0 && len(txns) > 0 ==> len(result0[0].SiacoinInputs) == len(txns[0].SiacoinInputs) && len(result0[0].FileContracts) == len(txns[0].FileContracts) && len(result0[0].FileContractResolutions) == len(txns[0].FileContractResolutions)
+//@ iface ChainManager.AddV2PoolTransactions
+//@   assigns nothing
+//@ iface ChainManager.V2TransactionSet
+//@   assigns nothing
+//@ iface Settings.RHP4Settings
+//@   assigns nothing
+//@ extern (*rhp4.RPCFormContractRequest).Validate
+//@   assigns nothing
+//@ extern rhp4.NewContract pure
+//@ extern rhp4.ContractCost pure
+//@ extern (types.Currency).Equals pure
+//@ extern (types.Currency).Sub pure
+//@ extern (types.SiacoinElement).Move
+//@   assigns nothing
+//
+//@ func (*Server).handleRPCFormContract props C16
+//@   requires s != nil && s.contractor != nil && s.chain != nil && s.wallet != nil && s.settings != nil && stream != nil
+//@   ghostvar fundedInputs int
+//@   aftercall FundV2Transaction : fundedInputs = len(formationTxn.SiacoinInputs)
+//@   loop "range req.RenterInputs"
+//@     invariant -1 <= rangeindex && rangeindex < len(req.RenterInputs)
+//@   loop "range renterSigResp.RenterSatisfiedPolicies"
+//@     invariant -1 <= rangeindex && rangeindex < len(renterSigResp.RenterSatisfiedPolicies)
+//@   ensures [released-or-broadcast] called("FundV2Transaction") && callres("FundV2Transaction", 2) == nil ==> called("BroadcastV2TransactionSet") && callres("BroadcastV2TransactionSet") == nil || called("ReleaseInputs")
